@@ -68,7 +68,17 @@ class T:
             base = self.gridval(e.func.value, c)
             if base[0] != "plain":
                 raise Untranslatable(f"{self.name}: {e.func.attr} on something that is not the underlying grid")
-            a = e.args
+            # positional or by the keywords of bloqade.geometry's Grid methods
+            names = {"shift": ["x_shift", "y_shift"], "scale": ["x_scale", "y_scale"], "get_view": ["x_indices", "y_indices"],
+                     "repeat": ["x_times", "y_times", "x_gap", "y_gap"]}[e.func.attr]
+            a = list(e.args)
+            kw = {k.arg: k.value for k in e.keywords}
+            if None in kw or set(kw) - set(names[len(a):]):
+                raise Untranslatable(f"{self.name}: grid {_u(e)}")
+            for nm in names[len(a):]:
+                if nm not in kw:
+                    raise Untranslatable(f"{self.name}: grid {_u(e)}")
+                a.append(kw[nm])
             if e.func.attr in ("shift", "scale") and len(a) == 2:
                 return ("plain", f"(g_{e.func.attr} {base[1]} {self.q(a[0], c)} {self.q(a[1], c)})")
             if e.func.attr == "get_view" and len(a) == 2:
